@@ -54,7 +54,38 @@ private def triples (s : String) : Option (List (Nat × Nat × Nat)) :=
     | [a, b, c] => do pure ((← a.toNat?), (← b.toNat?), (← c.toNat?))
     | _ => none)
 
+private def parseOp' : String → Option Checker.Op
+  | "n1" => some (.need true) | "n0" => some (.need false) | "w1" => some (.want true) | "w0" => some (.want false)
+  | "p1" => some (.pre true) | "p0" => some (.pre false) | "c" => some .close | "r" => some .raise | _ => none
+private def parseCheck' (s : String) : Option (List Checker.Op) := if s == "-" then some [] else (s.splitOn ",").mapM parseOp'
+private def showItem' (i : Checker.Item) : String :=
+  (match i.sev with | .error => "E" | .warning => "W" | .noop => "N") ++ (if i.passed then "1" else "0")
+private def showRes (r : Checker.Result) : String :=
+  (if r.details.isEmpty then "-" else ".".intercalate (r.details.map showItem')) ++ ":" ++ b01' r.passed
+private def pad3 (n : Nat) : String := let s := toString n; "check_" ++ String.ofList (List.replicate (3 - s.length) '0') ++ s
+
+/-- one event of a history: `m<k>` the object changes to version k; `c*`, `ce:<name>.<name>`, `cp:<prefix>.<prefix>` a `check()` call
+    (all / exact names / prefixes), optionally followed by `~<prefix>.<prefix>` = ignore patterns (literal prefixes) -/
+private def histEvent (names : List String) (ev : String) : Option (Sum Nat (Option (List String))) :=
+  if ev.startsWith "m" then (ev.drop 1).toNat?.map Sum.inl
+  else if ev.startsWith "c" then
+    let body := (ev.drop 1).toString
+    let (sel, ign) := match body.splitOn "~" with
+      | [a, b] => (a, b.splitOn ".")
+      | _ => (body, [])
+    let ignf := fun (n : String) => ign.any (fun p => n.startsWith p)
+    let r : Option (List String) :=
+      if sel == "*" then resolve names (none : Option (List String)) (fun a b => a == b) ignf
+      else if sel.startsWith "e:" then resolve names (some ((sel.drop 2).toString.splitOn ".")) (fun r n => r == n) ignf
+      else if sel.startsWith "p:" then resolve names (some ((sel.drop 2).toString.splitOn ".")) (fun r n => n.startsWith r) ignf
+      else none
+    some (Sum.inr r)
+  else none
+
 /-- `rule <name> <ints|-> <bools|->`            → 0/1
+    `hist <checks of version 0>/<version 1>/… <event>/<event>/…` (checks as in `checker run`) → after every check event the
+                                                  store `name=items:flag;…` sorted by name, or `refused`; events separated by `|`
+    `perchan d1,d2,… id:val,… id:truth,…`        → per /Data/Channel entry 1/0 (the Parameters node found by Identifier carries the channel's own value) | N
     `repeated a,b,…`                            → `<unique 0/1> <repeated values, comma separated | ->`
     `refs r,… d,…`  /  `required r,… k,…`        → 0/1
     `indices 1,2,…`                             → 0/1
@@ -71,6 +102,28 @@ def chkspecStep (toks : List String) : Option String :=
   | ["rule", name, i, b] => do
     let i ← ints i
     pure (b01' (← specRule name i (bools b)))
+  | ["hist", versions, events] => do
+    let vs ← (versions.splitOn "/").mapM (fun v => (v.splitOn ";").mapM parseCheck')
+    let n := (vs.headD []).length
+    let names := (List.range n).map pad3
+    let t : List (String × (Nat → List Checker.Op)) := (List.range n).map (fun i => (pad3 i, fun v => ((vs.getD v []).getD i [])))
+    let evs ← (events.splitOn "/").mapM (histEvent names)
+    let (_, _, out) := evs.foldl (fun (acc : Nat × List (String × Checker.Result) × List String) ev =>
+      let (v, store, out) := acc
+      match ev with
+      | .inl k => (k, store, out)
+      | .inr none => (v, store, out ++ ["refused"])
+      | .inr (some torun) =>
+        let st := checkCall t v store torun
+        let sorted := st.mergeSort (fun a b => a.1 ≤ b.1)
+        (v, st, out ++ [if sorted.isEmpty then "-" else ";".intercalate (sorted.map (fun e => e.1 ++ "=" ++ showRes e.2))])) (0, [], [])
+    pure (if out.isEmpty then "-" else "|".intercalate out)
+  | ["perchan", ds, ps, ts] => do
+    let kv := fun (s : String) => (csv s).mapM (fun t => match t.splitOn ":" with | [a, b] => some (a, b) | _ => none)
+    let ps ← kv ps
+    let ts ← kv ts
+    let r := perChannel (fun id v => ts.lookup id == some v) (csv ds) ps
+    pure (if r.isEmpty then "-" else ",".intercalate (r.map (fun e => match e.2 with | none => "N" | some b => b01' b)))
   | ["repeated", l] =>
     let l := csv l
     let r := repeated l
